@@ -6,6 +6,15 @@
 // model in which Seek is an atomic range read, PutChangeSet an atomic
 // multi-write and Persist a no-op.
 //
+// Round 4: a thread body PersistPrivate(p1, p2[, p3]) - private layers over the
+// shared layer under test, published as ONE batch (blockchain.go publishes a
+// whole block with bc.dao.PersistPrivate(aerCache, cache)); in the model it is
+// one atomic multi-write. Every PutChangeSet that reaches a lower store during
+// the schedule is recorded by a hook store below every shared layer and judged
+// by a second model: what a Persist hands down is exactly the set of changes
+// the layer holds at ONE moment of the Persist call (a flushed batch contains
+// a whole PutChangeSet / PersistPrivate or nothing of it).
+//
 // Used by checks/c09/conc (controlled scheduler, overlay build) and
 // checks/c09/concrace (free-running under -race on the unmodified package).
 //
@@ -19,6 +28,7 @@ import (
 	"context"
 	"errors"
 	"fmt"
+	"runtime"
 	"sort"
 	"strings"
 	"sync"
@@ -26,6 +36,7 @@ import (
 	"time"
 
 	"github.com/anishathalye/porcupine"
+	"github.com/nspcc-dev/neo-go/pkg/core/dao"
 	"github.com/nspcc-dev/neo-go/pkg/core/storage"
 
 	"verif/lib/sched"
@@ -33,11 +44,15 @@ import (
 
 // Op is one store operation.
 type Op struct {
-	Kind  string            // get put del batch seek seekasync persist persist2
+	Kind  string            // get put del batch pp seek seekasync persist persist2
 	Key   string            // get put del
 	Val   string            // put
 	Batch map[string]string // batch: value "" = delete
-	Pfx   string            // seek prefix (after the class byte)
+	// pp: PersistPrivate(privs...) - one private layer over the shared layer per
+	// element, filled by the calling thread (value "" = delete, an empty map = an
+	// empty private layer), then published with ONE PersistPrivate call.
+	Privs []map[string]string
+	Pfx   string // seek prefix (after the class byte)
 	Start string
 	Back  bool
 }
@@ -58,6 +73,20 @@ func (o Op) String() string {
 		}
 		sort.Strings(ks)
 		return "batch{" + strings.Join(ks, ",") + "}"
+	case "pp":
+		var ls []string
+		for _, l := range o.Privs {
+			var ks []string
+			for k, v := range l {
+				if v == "" {
+					v = "<del>"
+				}
+				ks = append(ks, k+"="+v)
+			}
+			sort.Strings(ks)
+			ls = append(ls, "{"+strings.Join(ks, ",")+"}")
+		}
+		return "PersistPrivate(" + strings.Join(ls, ", ") + ")"
 	case "seek", "seekasync":
 		d := ""
 		if o.Back {
@@ -70,14 +99,17 @@ func (o Op) String() string {
 
 // Scenario is one configuration.
 type Scenario struct {
-	Name    string
-	Class   byte              // first key byte: storage.STStorage (stor map) or another prefix (mem map)
-	Layers  int               // 1: S over MemoryStore; 2: S over shared MemCachedStore over MemoryStore
-	Bottom  map[string]string // contents of the MemoryStore at start
-	Middle  map[string]string // unflushed contents of the middle layer (Layers == 2)
-	Top     map[string]string // unflushed contents of S at start ("" = tombstone)
-	Threads map[string][]Op   // thread name -> ops (run concurrently)
-	Final   []Op              // ops of the main thread after the concurrent phase
+	Name     string
+	Class    byte              // first key byte: storage.STStorage (stor map) or another prefix (mem map)
+	Class2   byte              // first key byte of the keys written "~..." in the scenario (0: none); the other map of the layer
+	ViaDAO   bool              // the shared layer is dao.NewSimple(lower).Store, private layers are dao.GetPrivate(), published by dao.PersistPrivate (one pp thread at most: dao's own lock is a real one)
+	Layers   int               // 1: S over MemoryStore; 2: S over shared MemCachedStore over MemoryStore
+	Bottom   map[string]string // contents of the MemoryStore at start
+	Middle   map[string]string // unflushed contents of the middle layer (Layers == 2)
+	Top      map[string]string // unflushed contents of S at start ("" = tombstone)
+	Threads  map[string][]Op   // thread name -> ops (run concurrently)
+	Final    []Op              // ops of the main thread after the concurrent phase
+	MaxBound int               // preemption bound of this scenario when smaller than the tier's (0: the tier's)
 }
 
 const nf = "<notfound>"
@@ -88,7 +120,7 @@ func (sc *Scenario) writesAndFlushes() bool {
 	for _, ops := range sc.Threads {
 		for _, o := range ops {
 			switch o.Kind {
-			case "put", "del", "batch":
+			case "put", "del", "batch", "pp":
 				w = true
 			case "persist", "persist2":
 				f = true
@@ -126,22 +158,25 @@ func serState(m map[string]string) string {
 	return strings.Join(ks, ";")
 }
 
+// inRange: key k belongs to the range of the scan o. Keys written "~..." live
+// in the second key class (another first byte): a scan never crosses classes.
+func inRange(k string, o Op) bool {
+	if strings.HasPrefix(k, "~") != strings.HasPrefix(o.Pfx, "~") || !strings.HasPrefix(k, o.Pfx) {
+		return false
+	}
+	suf := k[len(o.Pfx):]
+	if o.Start != "" && ((!o.Back && suf < o.Start) || (o.Back && suf > o.Start)) {
+		return false
+	}
+	return true
+}
+
 func seekModel(m map[string]string, o Op) string {
 	var ks []string
 	for k := range m {
-		if !strings.HasPrefix(k, o.Pfx) {
-			continue
+		if inRange(k, o) {
+			ks = append(ks, k)
 		}
-		suf := k[len(o.Pfx):]
-		if o.Start != "" {
-			if !o.Back && suf < o.Start {
-				continue
-			}
-			if o.Back && suf > o.Start {
-				continue
-			}
-		}
-		ks = append(ks, k)
 	}
 	sort.Strings(ks)
 	if o.Back {
@@ -192,10 +227,79 @@ func Model(init map[string]string) porcupine.Model {
 					}
 				}
 				return true, serState(m)
+			case "pp": // ONE atomic multi-write: the layers in argument order
+				m := parseState(state.(string))
+				for _, l := range o.Privs {
+					for k, v := range l {
+						if v == "" {
+							delete(m, k)
+						} else {
+							m[k] = v
+						}
+					}
+				}
+				return true, serState(m)
 			}
 			return false, state
 		},
 		DescribeOperation: func(in, out any) string { return fmt.Sprintf("%v -> %v", in, out) },
+	}
+}
+
+// FlushModel is the specification of what reaches the lower stores: the state
+// is the set of unflushed changes of the shared layer S and of the middle
+// layer M, "" = tombstone. Writes add to S's set (a batch / PersistPrivate as a
+// whole). A Persist is two events: "capture" (between its call and the moment
+// the lower store's PutChangeSet is entered; the whole call when nothing is
+// handed down) takes exactly the layer's set of ONE moment - its output, what
+// the hook store below the layer recorded - and empties it; "deliver" (the
+// lower PutChangeSet call itself, two-layer stacks only) adds that changeset to
+// M's set.
+func FlushModel(top, mid map[string]string) porcupine.Model {
+	ser := func(t, m map[string]string) string { return serState(t) + "|" + serState(m) }
+	return porcupine.Model{
+		Init: func() any { return ser(top, mid) },
+		Step: func(state, input, output any) (bool, any) {
+			o := input.(Op)
+			parts := strings.SplitN(state.(string), "|", 2)
+			t, m := parseState(parts[0]), parseState(parts[1])
+			switch o.Kind {
+			case "put":
+				t[o.Key] = o.Val
+			case "del":
+				t[o.Key] = ""
+			case "batch":
+				for k, v := range o.Batch {
+					t[k] = v
+				}
+			case "pp":
+				for _, l := range o.Privs {
+					for k, v := range l {
+						t[k] = v
+					}
+				}
+			case "capture":
+				if o.Key == "S" {
+					if output.(string) != serState(t) {
+						return false, state
+					}
+					t = map[string]string{}
+				} else {
+					if output.(string) != serState(m) {
+						return false, state
+					}
+					m = map[string]string{}
+				}
+			case "deliver":
+				for k, v := range o.Batch {
+					m[k] = v
+				}
+			default:
+				return false, state
+			}
+			return true, ser(t, m)
+		},
+		DescribeOperation: func(in, out any) string { return fmt.Sprintf("%v -> {%v}", in, out) },
 	}
 }
 
@@ -211,6 +315,71 @@ type rec struct {
 	// store is read by the scan goroutine up to then); ret is the return of the
 	// SeekAsync CALL - the layer's own content is fixed there.
 	drained int64
+	// persist / persist2: the changesets the hook store below the flushed layer
+	// received during the call ("" = none), serialised like a model state
+	flushed         string
+	hookIn, hookOut int64 // clock at the entry / after the return of the lower store's PutChangeSet (0: not called)
+}
+
+// flushHook sits below a shared layer and records every changeset handed down.
+type flushHook struct {
+	storage.Store
+	h     *harness
+	layer string
+}
+
+func (f *flushHook) PutChangeSet(puts, stores map[string][]byte) error {
+	c := f.h.noteFlush(f.layer, puts, stores)
+	err := f.Store.PutChangeSet(puts, stores)
+	if c != nil {
+		c.out = f.h.clock.Add(1)
+	}
+	return err
+}
+
+// gid: id of the calling goroutine. Persist calls the lower store's PutChangeSet
+// on its own goroutine, so the id attributes a recorded changeset to the persist
+// operation in progress on that goroutine (in both modes: a logical thread of
+// the scheduler is one goroutine for its whole life).
+func gid() uint64 {
+	var buf [64]byte
+	n := runtime.Stack(buf[:], false)
+	var id uint64
+	for _, c := range buf[len("goroutine "):n] {
+		if c < '0' || c > '9' {
+			break
+		}
+		id = id*10 + uint64(c-'0')
+	}
+	return id
+}
+
+func (h *harness) noteFlush(layer string, puts, stores map[string][]byte) *capture {
+	m := map[string]string{}
+	for _, src := range []map[string][]byte{puts, stores} {
+		for k, v := range src {
+			m[h.unkey([]byte(k))] = string(v)
+		}
+	}
+	h.mu.Lock()
+	defer h.mu.Unlock()
+	h.nflush++
+	c := h.capt[gid()]
+	if c == nil || c.layer != layer {
+		h.stray = append(h.stray, layer+"{"+serState(m)+"}")
+		return nil
+	}
+	c.sets = append(c.sets, serState(m))
+	if c.in == 0 {
+		c.in = h.clock.Add(2) - 1 // c.in: end of the capture event, c.in+1: start of the delivery
+	}
+	return c
+}
+
+type capture struct {
+	layer   string
+	sets    []string
+	in, out int64
 }
 
 // asyncScan is a SeekAsync whose channel is being drained by a free-running
@@ -225,14 +394,18 @@ type asyncScan struct {
 }
 
 type harness struct {
-	sc    *Scenario
-	s     *storage.MemCachedStore
-	mid   *storage.MemCachedStore
-	clock atomic.Int64
-	mu    sync.Mutex
-	hist  []rec
-	univ  []string
-	async []*asyncScan
+	sc     *Scenario
+	s      *storage.MemCachedStore
+	mid    *storage.MemCachedStore
+	clock  atomic.Int64
+	mu     sync.Mutex
+	hist   []rec
+	univ   []string
+	async  []*asyncScan
+	d      *dao.Simple // ViaDAO
+	capt   map[uint64]*capture
+	stray  []string // changesets that reached a lower store outside a persist operation of that layer
+	nflush int
 }
 
 // universe: every key the scenario mentions.
@@ -254,6 +427,11 @@ func (h *harness) universe() []string {
 			for k := range o.Batch {
 				set[k] = true
 			}
+			for _, l := range o.Privs {
+				for k := range l {
+					set[k] = true
+				}
+			}
 		}
 	}
 	for _, ops := range h.sc.Threads {
@@ -267,15 +445,35 @@ func (h *harness) universe() []string {
 	return h.univ
 }
 
-func (h *harness) key(k string) []byte { return append([]byte{h.sc.Class}, k...) }
+func (h *harness) key(k string) []byte {
+	if strings.HasPrefix(k, "~") {
+		if h.sc.Class2 == 0 || h.sc.Class2 == h.sc.Class {
+			panic("scenario " + h.sc.Name + ": key " + k + " needs Class2")
+		}
+		return append([]byte{h.sc.Class2}, k[1:]...)
+	}
+	return append([]byte{h.sc.Class}, k...)
+}
+
+// unkey: the scenario's name of a store key.
+func (h *harness) unkey(k []byte) string {
+	if h.sc.Class2 != 0 && k[0] == h.sc.Class2 {
+		return "~" + string(k[1:])
+	}
+	return string(k[1:])
+}
+
+func isStor(class byte) bool {
+	return storage.KeyPrefix(class) == storage.STStorage || storage.KeyPrefix(class) == storage.STTempStorage
+}
 
 func (h *harness) changeSet(b map[string]string) (puts, stores map[string][]byte) {
 	puts, stores = map[string][]byte{}, map[string][]byte{}
-	m := puts
-	if storage.KeyPrefix(h.sc.Class) == storage.STStorage || storage.KeyPrefix(h.sc.Class) == storage.STTempStorage {
-		m = stores
-	}
 	for k, v := range b {
+		m := puts
+		if isStor(h.key(k)[0]) {
+			m = stores
+		}
 		if v == "" {
 			m[string(h.key(k))] = nil
 		} else {
@@ -287,7 +485,8 @@ func (h *harness) changeSet(b map[string]string) (puts, stores map[string][]byte
 
 func (h *harness) do(client int, o Op) {
 	call := h.clock.Add(1)
-	out := ""
+	out, flushed := "", ""
+	var hookIn, hookOut int64
 	switch o.Kind {
 	case "get":
 		v, err := h.s.Get(h.key(o.Key))
@@ -308,10 +507,26 @@ func (h *harness) do(client int, o Op) {
 		if err := h.s.PutChangeSet(p, s); err != nil {
 			out = "error:" + err.Error()
 		}
+	case "pp":
+		if h.d != nil {
+			ps := make([]*dao.Simple, len(o.Privs))
+			for i, l := range o.Privs {
+				ps[i] = h.d.GetPrivate()
+				h.fill(ps[i].Store, l)
+			}
+			h.d.PersistPrivate(ps...)
+		} else {
+			ps := make([]*storage.MemCachedStore, len(o.Privs))
+			for i, l := range o.Privs {
+				ps[i] = storage.NewPrivateMemCachedStore(h.s)
+				h.fill(ps[i], l)
+			}
+			h.s.PersistPrivate(ps...)
+		}
 	case "seek":
 		var res []string
 		h.s.Seek(storage.SeekRange{Prefix: h.key(o.Pfx), Start: []byte(o.Start), Backwards: o.Back}, func(k, v []byte) bool {
-			res = append(res, string(k[1:])+"="+string(v))
+			res = append(res, h.unkey(k)+"="+string(v))
 			return true
 		})
 		out = strings.Join(res, ",")
@@ -325,7 +540,7 @@ func (h *harness) do(client int, o Op) {
 		a := &asyncScan{client: client, op: o, call: call, ret: h.clock.Add(1), done: make(chan struct{})}
 		go func() {
 			for e := range ch {
-				a.res = append(a.res, string(e.Key[1:])+"="+string(e.Value))
+				a.res = append(a.res, h.unkey(e.Key)+"="+string(e.Value))
 			}
 			close(a.done)
 		}()
@@ -333,21 +548,43 @@ func (h *harness) do(client int, o Op) {
 		h.async = append(h.async, a)
 		h.mu.Unlock()
 		return
-	case "persist":
-		if _, err := h.s.Persist(); err != nil {
+	case "persist", "persist2":
+		st, layer := h.s, "S"
+		if o.Kind == "persist2" {
+			st, layer = h.mid, "M"
+		}
+		g := gid()
+		c := &capture{layer: layer}
+		h.mu.Lock()
+		h.capt[g] = c
+		h.mu.Unlock()
+		_, err := st.Persist()
+		h.mu.Lock()
+		delete(h.capt, g)
+		h.mu.Unlock()
+		if err != nil {
 			out = "error:" + err.Error()
 		}
-	case "persist2":
-		if _, err := h.mid.Persist(); err != nil {
-			out = "error:" + err.Error()
-		}
+		flushed = strings.Join(c.sets, " + ")
+		hookIn, hookOut = c.in, c.out
 	default:
 		panic("bad op " + o.Kind)
 	}
 	ret := h.clock.Add(1)
 	h.mu.Lock()
-	h.hist = append(h.hist, rec{client: client, op: o, call: call, ret: ret, out: out})
+	h.hist = append(h.hist, rec{client: client, op: o, call: call, ret: ret, out: out, flushed: flushed, hookIn: hookIn, hookOut: hookOut})
 	h.mu.Unlock()
+}
+
+// fill writes a private layer the way its owner does: Put / Delete (no locks on a private layer).
+func (h *harness) fill(p *storage.MemCachedStore, l map[string]string) {
+	for k, v := range l {
+		if v == "" {
+			p.Delete(h.key(k))
+		} else {
+			p.Put(h.key(k), []byte(v))
+		}
+	}
 }
 
 // Outcome of one run.
@@ -358,7 +595,7 @@ type Outcome struct {
 
 // Run executes the scenario once; r == nil: free-running.
 func Run(sc *Scenario, r *sched.Run) *Outcome {
-	h := &harness{sc: sc}
+	h := &harness{sc: sc, capt: map[uint64]*capture{}}
 	bottom := storage.NewMemoryStore()
 	init := map[string]string{}
 	load := func(st storage.Store, m map[string]string) {
@@ -376,13 +613,20 @@ func Run(sc *Scenario, r *sched.Run) *Outcome {
 		}
 	}
 	load(bottom, sc.Bottom)
-	var lower storage.Store = bottom
+	// a recording hook below every shared layer (it has no synchronisation of its
+	// own towards the subject: no scheduling point is added or removed)
+	var lower storage.Store = &flushHook{Store: bottom, h: h, layer: "S"}
 	if sc.Layers == 2 {
-		h.mid = storage.NewMemCachedStore(bottom)
+		h.mid = storage.NewMemCachedStore(&flushHook{Store: bottom, h: h, layer: "M"})
 		load(h.mid, sc.Middle)
-		lower = h.mid
+		lower = &flushHook{Store: h.mid, h: h, layer: "S"}
 	}
-	h.s = storage.NewMemCachedStore(lower)
+	if sc.ViaDAO {
+		h.d = dao.NewSimple(lower, false)
+		h.s = h.d.Store
+	} else {
+		h.s = storage.NewMemCachedStore(lower)
+	}
 	load(h.s, sc.Top)
 
 	out := &Outcome{}
@@ -425,11 +669,7 @@ func Run(sc *Scenario, r *sched.Run) *Outcome {
 				}
 			}
 			for j, k := range h.universe() {
-				if !strings.HasPrefix(k, x.op.Pfx) {
-					continue
-				}
-				suf := k[len(x.op.Pfx):]
-				if x.op.Start != "" && ((!x.op.Back && suf < x.op.Start) || (x.op.Back && suf > x.op.Start)) {
+				if !inRange(k, x.op) {
 					continue
 				}
 				v, ok := got[k]
@@ -451,6 +691,45 @@ func Run(sc *Scenario, r *sched.Run) *Outcome {
 			}
 		}
 		resWeak := porcupine.CheckOperationsTimeout(Model(init), weak, 20*time.Second)
+		// Round 4, what reached the lower stores: writes and flushes only, the output
+		// of a flush is what the hook below the layer recorded during the call.
+		var fl []porcupine.Operation
+		nPersist := 0
+		for _, x := range hist {
+			switch x.op.Kind {
+			case "persist", "persist2":
+				nPersist++
+				layer := "S"
+				if x.op.Kind == "persist2" {
+					layer = "M"
+				}
+				capt := porcupine.Operation{ClientId: x.client, Input: Op{Kind: "capture", Key: layer}, Call: x.call, Output: x.flushed, Return: x.ret}
+				if x.hookIn != 0 {
+					capt.Return = x.hookIn
+					if layer == "S" && sc.Layers == 2 && !strings.Contains(x.flushed, " + ") {
+						fl = append(fl, porcupine.Operation{ClientId: 50 + x.client, Input: Op{Kind: "deliver", Batch: parseState(x.flushed)}, Call: x.hookIn + 1, Output: "", Return: x.hookOut})
+					}
+				}
+				fl = append(fl, capt)
+			case "put", "del", "batch", "pp":
+				fl = append(fl, porcupine.Operation{ClientId: x.client, Input: x.op, Call: x.call, Output: "", Return: x.ret})
+			}
+		}
+		resFlush := porcupine.Ok
+		if nPersist > 0 {
+			top := map[string]string{}
+			for k, v := range sc.Top {
+				top[k] = v
+			}
+			mid := map[string]string{}
+			for k, v := range sc.Middle {
+				mid[k] = v
+			}
+			resFlush = porcupine.CheckOperationsTimeout(FlushModel(top, mid), fl, 20*time.Second)
+		}
+		if len(h.stray) > 0 {
+			out.Fails = append(out.Fails, sched.Fail{Key: "flush-outside-persist:" + sc.Name, Msg: "a lower store received a changeset although no Persist of the layer above it was in progress on that goroutine: " + strings.Join(h.stray, " ")})
+		}
 		if !orderOK {
 			out.Fails = append(out.Fails, sched.Fail{Key: "seek-order:" + sc.Name, Msg: "a Seek result is not strictly ordered / leaves the prefix / contains an unknown key"})
 		}
@@ -459,6 +738,9 @@ func Run(sc *Scenario, r *sched.Run) *Outcome {
 		for _, x := range hist {
 			if x.op.Kind == "get" || x.op.Kind == "seek" || x.op.Kind == "seekasync" {
 				by[x.client] = append(by[x.client], x.op.String()+"->"+x.out)
+			}
+			if x.op.Kind == "persist" || x.op.Kind == "persist2" {
+				by[x.client] = append(by[x.client], x.op.String()+"->flushed{"+x.flushed+"}")
 			}
 			if strings.HasPrefix(x.out, "error:") {
 				out.Fails = append(out.Fails, sched.Fail{Key: "store-error:" + sc.Name, Msg: x.op.String() + " -> " + x.out})
@@ -470,19 +752,26 @@ func Run(sc *Scenario, r *sched.Run) *Outcome {
 		}
 		sort.Ints(cl)
 		var b strings.Builder
-		fmt.Fprintf(&b, "end=%s atomic=%s perkey=%s", end, res, resWeak)
+		fmt.Fprintf(&b, "end=%s atomic=%s perkey=%s flush=%s", end, res, resWeak, resFlush)
 		for _, c := range cl {
 			fmt.Fprintf(&b, " c%d=%v", c, by[c])
 		}
 		out.Obs = b.String()
-		if res != porcupine.Ok || resWeak != porcupine.Ok {
+		if res != porcupine.Ok || resWeak != porcupine.Ok || resFlush != porcupine.Ok {
 			sort.Slice(hist, func(i, j int) bool { return hist[i].call < hist[j].call })
 			var hs []string
 			for _, x := range hist {
+				if x.op.Kind == "persist" || x.op.Kind == "persist2" {
+					hs = append(hs, fmt.Sprintf("[%d..%d] c%d %s -> handed down {%s}", x.call, x.ret, x.client, x.op, x.flushed))
+					continue
+				}
 				hs = append(hs, fmt.Sprintf("[%d..%d] c%d %s -> %q", x.call, x.ret, x.client, x.op, x.out))
 			}
-			msg := fmt.Sprintf("initial contents %v; history (call..return timestamps): %s", serState(init), strings.Join(hs, " | "))
-			if res == porcupine.Unknown || resWeak == porcupine.Unknown {
+			msg := fmt.Sprintf("initial contents %v (unflushed in the layer: {%s}, in the middle layer: {%s}); history (call..return timestamps): %s", serState(init), serState(sc.Top), serState(sc.Middle), strings.Join(hs, " | "))
+			if resFlush == porcupine.Illegal {
+				out.Fails = append(out.Fails, sched.Fail{Key: "flush-not-a-batch-boundary:" + sc.Name, Msg: "what the Persist calls handed to the lower store is not the layer's set of unflushed changes at one moment of each call with every PutChangeSet / PersistPrivate written as a whole (a flushed batch holds half of a batch, loses or repeats a change): " + msg})
+			}
+			if res == porcupine.Unknown || resWeak == porcupine.Unknown || resFlush == porcupine.Unknown {
 				out.Fails = append(out.Fails, sched.Fail{Key: "linearizability-check-timeout:" + sc.Name, Msg: msg})
 			}
 			if resWeak == porcupine.Illegal {
@@ -700,5 +989,5 @@ func Scenarios() []*Scenario {
 				"T3writer": {put("a", "a2"), del("abc"), put("ab", "ab2")},
 			}, Final: final},
 	}
-	return scs
+	return append(scs, ppScenarios(Thorough())...)
 }
